@@ -753,6 +753,10 @@ class Comparer:
             e1, e2 = ea.copy(), eb.copy()
             sa, sb = self.seq(body_a, body_b, e1, e2, f1, f2, c2, rest_a, rest_b)
             if self._terminates(body_a) and self._terminates(body_b):
+                if body_a[-1][0] == 'jump' and body_b[-1][0] == 'jump':
+                    # control leaves the branch through break / continue: what the branch computed is still live behind
+                    # the loop (break) or in the next iteration (continue)
+                    self.compare_vars(e1, e2, union, sa, sb, f1, f2, c2, live, f"at the `{body_a[-1][1]}` that ends the branch")
                 continue
             self.compare_vars(e1, e2, union, sa, sb, f1, f2, c2, live, 'at end of branch')
         self._havoc(ea, eb, xa, xb, wa, wb, f"if{site}")
